@@ -189,7 +189,7 @@ theorem dsAppend_eq (A : DArr) (d : Arr) (axis : Int) : dsAppend A d axis = appe
               (.tuple ((appendSlices (appendOffset axis A.arr.shape) (contiguous d.a).shape).map .ix)) with
           | ok B => simp [pyTryReraise]
           | error e =>
-            simp only [pyTryReraise]
+            simp only [pyTryReraise, anyException, if_true]
             cases setExtent A1 (A.arr.shape.map Int.ofNat) with
             | ok A2 => simp [pyDone]
             | error e2 => simp
